@@ -100,8 +100,6 @@ theorem src_float_merge_expected : src_float_merge = "{ m.addMin(other.minV, oth
 
 theorem src_isPreAggRead_expected : src_isPreAggRead = "{ return len(l.ctx.ops) > 0 }" := by rfl
 
-theorem src_firstTieTakesBase_expected : src_firstTieTakesBase = "{ if _, ok := newRecV.(bool); ok { if _, ok = baseRecV.(bool); ok { return compareMin(baseRecV, newRecV) } } return compareMin(newRecV, baseRecV) }" := by rfl
-
 theorem src_compareMin_expected : src_compareMin = "{ switch newRecV.(type) { case int64: base, ok := baseRecV.(int64) if !ok { return true } return newRecV.(int64) < base case float64: base, ok := baseRecV.(float64) if !ok { return true } return newRecV.(float64) < base case string: base, ok := baseRecV.(string) if !ok { return true } return newRecV.(string) < base case bool: base, ok := baseRecV.(bool) if !ok { return true } if (!base && !newRecV.(bool)) || (base && newRecV.(bool)) { return false } else if !newRecV.(bool) { return true } return false default: return true } }" := by rfl
 
 theorem src_minBool_expected : src_minBool = "{ newRecV, newRecTime := newRec.RecMeta.ColMeta[idx].Min() baseRecV, baseRecTime := baseRec.RecMeta.ColMeta[idx].Min() base, ok := baseRecV.(bool) if !ok { panic(\"meta Min isn't base type\") } if (!base && !newRecV.(bool)) || (base && newRecV.(bool)) { if baseRecTime < newRecTime { newRec.RecMeta.ColMeta[idx].SetMin(baseRecV, baseRecTime) newRec.ColVals = baseRec.CopyColVals() return true } else { return false } } else if !base { newRec.RecMeta.ColMeta[idx].SetMin(baseRecV, baseRecTime) newRec.ColVals = baseRec.CopyColVals() return false } else { return true } }" := by rfl
@@ -130,9 +128,9 @@ theorem src_mergeStringPreAgg_expected : src_mergeStringPreAgg = "{ ab := c.colB
 
 theorem src_readMemTableMetaRecord_expected : src_readMemTableMetaRecord = "{ if r.record == nil { return } schema := r.record.Schema if r.record.RecMeta == nil { r.record.RecMeta = &record.RecMeta{} } if cap(r.record.ColMeta) < len(schema)-1 { r.record.ColMeta = make([]record.ColMeta, len(schema)-1) } timeCol := r.record.TimeColumn() descending := r.record.RowNums() > 1 && r.record.Time(0) > r.record.Time(r.record.RowNums()-1) var done []int for _, call := range ops { if r.record == nil { return } idx := r.record.Schema.FieldIndex(call.Ref.Val) if idx < 0 { continue } if slices.Contains(done, idx) { continue } switch r.record.Schema[idx].Type { case influx.Field_Type_Int: r.setIntColumnMeta(timeCol, idx, r.record, ops) case influx.Field_Type_String, influx.Field_Type_Tag: r.setStringColumnMeta(timeCol, idx, r.record, ops) case influx.Field_Type_Float: r.setFloatColumnMeta(timeCol, idx, r.record, ops) case influx.Field_Type_Boolean: r.setBoolColumnMeta(timeCol, idx, r.record, ops) default: return } if r.record == nil { return } done = append(done, idx) if descending { first, firstTime := r.record.ColMeta[idx].First() last, lastTime := r.record.ColMeta[idx].Last() r.record.ColMeta[idx].SetFirst(last, lastTime) r.record.ColMeta[idx].SetLast(first, firstTime) } } }" := by rfl
 
-theorem src_setIntColumnMeta_expected : src_setIntColumnMeta = "{ timeCols := timeColVals.IntegerValues() colVals := rec.ColVals[idx] cols := colVals.IntegerValues() if cols == nil { if len(ops) == 1 { r.reset() } return } var minV, maxV, minVTime, maxVTime, sumV, countV int64 var colIndex, lastIndex, firstIndex, minIndex, maxIndex int nilCount := 0 colIndex = -1 lastIndex, firstIndex, minIndex, maxIndex = -1, -1, -1, -1 firstInit := false var lastTime int64 for index, timeCol := range timeCols { if colVals.IsNil(index) { nilCount += 1 continue } if !firstInit { minV = cols[index-nilCount] minVTime = timeCol maxV = cols[index-nilCount] maxVTime = timeCol firstIndex, minIndex, maxIndex = index, index, index firstInit = true } countV += 1 colIndex += 1 if colIndex == 0 { rec.ColMeta[idx].SetFirst(cols[index-nilCount], timeCol) firstIndex = index } if cols[index-nilCount] < minV || (cols[index-nilCount] == minV && minVTime > timeCol) { minV = cols[index-nilCount] minVTime = timeCol minIndex = index } if cols[index-nilCount] > maxV || (cols[index-nilCount] == maxV && maxVTime > timeCol) { maxV = cols[index-nilCount] maxVTime = timeCol maxIndex = index } sumV += cols[index-nilCount] lastIndex = colIndex lastTime = timeCol } rec.ColMeta[idx].SetLast(cols[lastIndex], lastTime) rec.ColMeta[idx].SetMin(minV, minVTime) rec.ColMeta[idx].SetMax(maxV, maxVTime) rec.ColMeta[idx].SetCount(countV) rec.ColMeta[idx].SetSum(sumV) setColValInAux(timeColVals, idx, ops, rec, minIndex, firstIndex, maxIndex, lastIndex) }" := by rfl
+theorem src_setIntColumnMeta_expected : src_setIntColumnMeta = "{ timeCols := timeColVals.IntegerValues() colVals := rec.ColVals[idx] cols := colVals.IntegerValues() if cols == nil { if len(ops) == 1 { r.reset() } return } var minV, maxV, minVTime, maxVTime, sumV, countV int64 var colIndex, lastIndex, firstIndex, minIndex, maxIndex int nilCount := 0 colIndex = -1 lastIndex, firstIndex, minIndex, maxIndex = -1, -1, -1, -1 firstInit := false var lastTime int64 lastRow := -1 for index, timeCol := range timeCols { if colVals.IsNil(index) { nilCount += 1 continue } if !firstInit { minV = cols[index-nilCount] minVTime = timeCol maxV = cols[index-nilCount] maxVTime = timeCol firstIndex, minIndex, maxIndex = index, index, index firstInit = true } countV += 1 colIndex += 1 if colIndex == 0 { rec.ColMeta[idx].SetFirst(cols[index-nilCount], timeCol) firstIndex = index } if cols[index-nilCount] < minV || (cols[index-nilCount] == minV && minVTime > timeCol) { minV = cols[index-nilCount] minVTime = timeCol minIndex = index } if cols[index-nilCount] > maxV || (cols[index-nilCount] == maxV && maxVTime > timeCol) { maxV = cols[index-nilCount] maxVTime = timeCol maxIndex = index } sumV += cols[index-nilCount] lastIndex = colIndex lastRow = index lastTime = timeCol } rec.ColMeta[idx].SetLast(cols[lastIndex], lastTime) rec.ColMeta[idx].SetMin(minV, minVTime) rec.ColMeta[idx].SetMax(maxV, maxVTime) rec.ColMeta[idx].SetCount(countV) rec.ColMeta[idx].SetSum(sumV) setColValInAux(timeColVals, idx, ops, rec, minIndex, firstIndex, maxIndex, lastRow) }" := by rfl
 
-theorem src_setBoolColumnMeta_expected : src_setBoolColumnMeta = "{ timeCols := timeColVals.IntegerValues() colVals := rec.ColVals[idx] cols := colVals.BooleanValues() if cols == nil { if len(ops) == 1 { r.reset() } return } var minVTime, maxVTime, countV int64 var minV, maxV bool var colIndex, lastIndex, firstIndex, minIndex, maxIndex int nilCount := 0 lastIndex, firstIndex, minIndex, maxIndex = -1, -1, -1, -1 countV = 0 colIndex = -1 firstInit := false var lastTime int64 for index, timeCol := range timeCols { if colVals.IsNil(index) { nilCount += 1 continue } if !firstInit { minV = cols[index-nilCount] minVTime = timeCol maxV = cols[index-nilCount] maxVTime = timeCol firstInit = true firstIndex, minIndex, maxIndex = index, index, index } countV += 1 colIndex += 1 if colIndex == 0 { rec.ColMeta[idx].SetFirst(cols[index-nilCount], timeCol) } if minV && !cols[index-nilCount] { minV = cols[index-nilCount] minVTime = timeCol minIndex = index } if !maxV && cols[index-nilCount] { maxV = cols[index-nilCount] maxVTime = timeCol maxIndex = index } lastIndex = colIndex lastTime = timeCol } rec.ColMeta[idx].SetLast(cols[lastIndex], lastTime) rec.ColMeta[idx].SetMin(minV, minVTime) rec.ColMeta[idx].SetMax(maxV, maxVTime) rec.ColMeta[idx].SetCount(countV) setColValInAux(timeColVals, idx, ops, rec, minIndex, firstIndex, maxIndex, lastIndex) }" := by rfl
+theorem src_setBoolColumnMeta_expected : src_setBoolColumnMeta = "{ timeCols := timeColVals.IntegerValues() colVals := rec.ColVals[idx] cols := colVals.BooleanValues() if cols == nil { if len(ops) == 1 { r.reset() } return } var minVTime, maxVTime, countV int64 var minV, maxV bool var colIndex, lastIndex, firstIndex, minIndex, maxIndex int nilCount := 0 lastIndex, firstIndex, minIndex, maxIndex = -1, -1, -1, -1 countV = 0 colIndex = -1 firstInit := false var lastTime int64 lastRow := -1 for index, timeCol := range timeCols { if colVals.IsNil(index) { nilCount += 1 continue } if !firstInit { minV = cols[index-nilCount] minVTime = timeCol maxV = cols[index-nilCount] maxVTime = timeCol firstInit = true firstIndex, minIndex, maxIndex = index, index, index } countV += 1 colIndex += 1 if colIndex == 0 { rec.ColMeta[idx].SetFirst(cols[index-nilCount], timeCol) } if minV && !cols[index-nilCount] { minV = cols[index-nilCount] minVTime = timeCol minIndex = index } if !maxV && cols[index-nilCount] { maxV = cols[index-nilCount] maxVTime = timeCol maxIndex = index } lastIndex = colIndex lastRow = index lastTime = timeCol } rec.ColMeta[idx].SetLast(cols[lastIndex], lastTime) rec.ColMeta[idx].SetMin(minV, minVTime) rec.ColMeta[idx].SetMax(maxV, maxVTime) rec.ColMeta[idx].SetCount(countV) setColValInAux(timeColVals, idx, ops, rec, minIndex, firstIndex, maxIndex, lastRow) }" := by rfl
 
 theorem src_countMeta_expected : src_countMeta = "{ newRecV := newRec.RecMeta.ColMeta[idx].Count() baseRecV := baseRec.RecMeta.ColMeta[idx].Count() if IsInterfaceNil(baseRecV) { return } if IsInterfaceNil(newRecV) { newRec.RecMeta.ColMeta[idx].SetCount(baseRecV) return } switch newRecV.(type) { case int64: base, ok := baseRecV.(int64) if !ok { panic(\"meta count isn't int64 type\") } newRec.RecMeta.ColMeta[idx].SetCount(base + newRecV.(int64)) return case float64: base, ok := baseRecV.(float64) if !ok { panic(\"meta count isn't float64 type\") } newRec.RecMeta.ColMeta[idx].SetCount(base + newRecV.(float64)) return default: panic(\"meta can't count\") } }" := by rfl
 
@@ -146,7 +144,7 @@ theorem conds_minMeta_expected : conds_minMeta = ["IsInterfaceNil(baseRecV)", "I
 
 theorem conds_maxMeta_expected : conds_maxMeta = ["IsInterfaceNil(baseRecV)", "IsInterfaceNil(newRecV)", "!ok", "newRecV.(int64) < base || (newRecV.(int64) == base && newRecTime > baseRecTime)", "!ok", "newRecV.(float64) < base || (newRecV.(float64) == base && newRecTime > baseRecTime)"] := by rfl
 
-theorem conds_firstMeta_expected : conds_firstMeta = ["IsInterfaceNil(baseRecV)", "IsInterfaceNil(newRecV) && !IsInterfaceNil(baseRecV)", "newRecTime > baseRecTime", "newRecTime == baseRecTime && firstTieTakesBase(newRecV, baseRecV)"] := by rfl
+theorem conds_firstMeta_expected : conds_firstMeta = ["IsInterfaceNil(baseRecV)", "IsInterfaceNil(newRecV) && !IsInterfaceNil(baseRecV)", "newRecTime > baseRecTime", "newRecTime == baseRecTime && compareMin(newRecV, baseRecV)"] := by rfl
 
 theorem conds_lastMeta_expected : conds_lastMeta = ["IsInterfaceNil(baseRecV)", "IsInterfaceNil(newRecV) && !IsInterfaceNil(baseRecV)", "newRecTime < baseRecTime", "newRecTime == baseRecTime && compareMin(newRecV, baseRecV)"] := by rfl
 
@@ -154,7 +152,7 @@ theorem conds_compareMin_expected : conds_compareMin = ["!ok", "!ok", "!ok", "!o
 
 theorem conds_readSumCount_expected : conds_readSumCount = ["colIdx < 0", "dstIdx < 0", "cm.allRowsInRange(ctx.tr)", "err != nil", "isSum", "cb.count() != 0", "!isSum && ref.Name == record.TimeField", "err != nil"] := by rfl
 
-theorem conds_readMinMax_expected : conds_readMinMax = ["colIdx < 0", "dstIdx < 0", "cm.allRowsInRange(ctx.tr)", "err != nil", "isMin", "readAux", "isMin", "err != nil", "readAux && rowIndex >= 0", "err != nil", "col.Length()-col.NilCount != 1"] := by rfl
+theorem conds_readMinMax_expected : conds_readMinMax = ["colIdx < 0", "dstIdx < 0", "cm.allRowsInRange(ctx.tr)", "err != nil", "isMin", "cb.count() != 0", "cb.count() != 0", "readAux", "isMin", "err != nil", "readAux && rowIndex >= 0", "err != nil", "col.Length()-col.NilCount != 1"] := by rfl
 
 theorem conds_readSumCountFromData_expected : conds_readSumCountFromData = ["!ctx.tr.Overlaps(trSegs[i].minTime(), trSegs[i].maxTime())", "err != nil", "err != nil", "err != nil", "isSum", "count != 0", "mc != nil", "!ok"] := by rfl
 
@@ -168,7 +166,7 @@ theorem conds_Location_readData_expected : conds_Location_readData = ["!l.ctx.tr
 
 theorem conds_tsspFileReader_ReadData_expected : conds_tsspFileReader_ReadData = ["err != nil", "len(decs.ops) > 0", "err != nil"] := by rfl
 
-theorem conds_FirstLastReader_Read_expected : conds_FirstLastReader_Read = ["idx < 0", "r.timeCol.Length() > 0", "r.meta.IsEmpty()", "!ctx.tr.Overlaps(minMaxSeg.minTime(), minMaxSeg.maxTime())", "ok", "!r.first", "err != nil", "r.first && r.dataCol.NilCount == 0 && minMaxSeg.minTime() >= ctx.tr.Min", "!ctx.Ascending", "!r.first && r.dataCol.NilCount == 0 && minMaxSeg.maxTime() <= ctx.tr.Max", "!ctx.Ascending", "err != nil", "rowIndex >= r.timeCol.Length()"] := by rfl
+theorem conds_FirstLastReader_Read_expected : conds_FirstLastReader_Read = ["idx < 0", "r.timeCol.Length() > 0", "r.meta.IsEmpty()", "!ctx.tr.Overlaps(minMaxSeg.minTime(), minMaxSeg.maxTime())", "ok", "e != nil", "err != nil", "r.first && r.dataCol.NilCount == 0 && minMaxSeg.minTime() >= ctx.tr.Min", "!ctx.Ascending", "!r.first && r.dataCol.NilCount == 0 && minMaxSeg.maxTime() <= ctx.tr.Max", "!ctx.Ascending", "err != nil", "rowIndex >= r.timeCol.Length()"] := by rfl
 
 theorem firstLast_tm_assignments_expected : firstLast_tm_assignments = ["tm = minMaxSeg.minTime()", "tm = minMaxSeg.maxTime()"] := by rfl
 
